@@ -100,8 +100,8 @@ func init() {
 			b.Amount = big.NewInt(0)
 			b.FromBlockHash = e.pending[st.RecvUsed]
 		}},
-		{Name: "call/plasma.Fuse", Class: "call", Base: refEmbeddedSimple, fill: call(types.PlasmaContract, types.QsrTokenStandard, 10*g.Zexp, func() []byte {
-			return definition.ABIPlasma.PackMethodPanic(definition.FuseMethodName, fuserUser().Address)
+		{Name: "call/pillar.Delegate", Class: "call", Base: refEmbeddedSimple, fill: call(types.PillarContract, types.ZeroTokenStandard, 0, func() []byte {
+			return definition.ABIPillars.PackMethodPanic(definition.DelegateMethodName, g.Pillar1Name)
 		})},
 		{Name: "call/sentinel.Revoke", Class: "call", Base: refEmbeddedDouble, fill: call(types.SentinelContract, types.ZeroTokenStandard, 0, func() []byte {
 			return definition.ABISentinel.PackMethodPanic(definition.RevokeSentinelMethodName)
@@ -124,16 +124,15 @@ const (
 	pow3                  // difficulty 5999 (3 plasma), valid nonce
 	pow4Bad               // difficulty 6000, least nonce that does NOT meet it
 	pow63Bad              // difficulty 2^63, least nonce that does NOT meet it
-	powFull               // difficulty 21000*1500, valid nonce (only where a full search was afforded)
-	powFullLess           // difficulty 21000*1500 − 1 (20999 plasma), same nonce
-	powFullBad            // difficulty 21000*1500, least nonce that does not meet it
+	powFull               // difficulty W*1500 for a large W (512 or a whole base block, 21000), valid nonce; only in "heavy" items
+	powFullLess           // difficulty W*1500 − 1 (W−1 plasma), same nonce
+	powFullBad            // difficulty W*1500, least nonce that does not meet it
 	powMaxBad             // difficulty 2^64−1, least nonce that does NOT meet it
 	nPowOptions
 )
 
-var powNames = []string{"none", "d1500", "d6000", "d5999", "d6000/badnonce", "d2^63/badnonce", "dFull", "dFull-1", "dFull/badnonce", "d2^64-1/badnonce"}
+var powNames = []string{"none", "d1500", "d6000", "d5999", "d6000/badnonce", "d2^63/badnonce", "dW*1500", "dW*1500-1", "dW*1500/badnonce", "d2^64-1/badnonce"}
 
-const fullDifficulty = refBasePlasma * refDiffPerPlasma
 
 type cand struct {
 	K int    `json:"k"`
@@ -169,6 +168,10 @@ type mstate struct {
 	Prev      types.HashHeight
 	Blocks    int // blocks accepted on the path
 	MUsed     int
+	// LastRel is the fused amount of the latest unconfirmed block if that amount is in every state's extension domain.
+	// The model is commutative in the fused amounts, so of the orders in which a multiset of such amounts can be
+	// spent only the non-decreasing one is continued (the others lead to the same model state).
+	LastRel uint64
 }
 
 func (s *mstate) used() uint64 {
@@ -190,7 +193,7 @@ type stateNonces struct {
 	bad4     uint64
 	bad63    uint64
 	badMax   uint64
-	hasFull  bool
+	heavyW   uint64 // plasma the heavy PoW options buy (0 = not available in this state)
 	full     uint64
 	badFull  uint64
 	searched uint64
@@ -254,6 +257,27 @@ func newEnv(c *xs.Ctx, cfg acctCfg) *env {
 	return e
 }
 
+// reset replaces the node by a fresh one in the same configuration (identical by construction: the setup is
+// deterministic). Needed where the pool cannot replace a sibling: blocks at height 1 have no previous block to roll
+// back to (accountPool.canRollback answers "missing previous").
+func (e *env) reset() {
+	old := e.pending
+	e.n.Destroy()
+	*e = *newEnv(e.c, e.cfg)
+	for i := range old {
+		if old[i] != e.pending[i] {
+			panic("harness: setup is not deterministic")
+		}
+	}
+}
+
+// clean makes sure no sibling sits where a block on top of st would go, when the pool could not replace it.
+func (e *env) clean(st *mstate) {
+	if st.Prev.Height == 0 && e.n.Chain.GetFrontierAccountStore(e.addr).Identifier().Height != 0 {
+		e.reset()
+	}
+}
+
 func (e *env) refreshAck() {
 	e.ack = e.n.Frontier().Identifier()
 }
@@ -285,7 +309,7 @@ func (e *env) counters() (committed, uncommitted uint64, avail int64) {
 	return cb.Uint64(), ub.Uint64(), avail
 }
 
-func (e *env) nonces(st *mstate, full bool) *stateNonces {
+func (e *env) nonces(st *mstate, heavyW uint64) *stateNonces {
 	nn := &stateNonces{dh: refDataHash(e.addr, st.Prev.Hash)}
 	v, ok, tries := refSearch(6000, &nn.dh, 1<<24)
 	if !ok {
@@ -302,13 +326,13 @@ func (e *env) nonces(st *mstate, full bool) *stateNonces {
 	nn.bad4 = firstBad(6000)
 	nn.bad63 = firstBad(1 << 63)
 	nn.badMax = firstBad(^uint64(0))
-	if full {
-		v, ok, tries := refSearch(fullDifficulty, &nn.dh, 1<<34)
+	if heavyW > 0 {
+		v, ok, tries := refSearch(heavyW*refDiffPerPlasma, &nn.dh, 1<<34)
 		if !ok {
-			panic("harness: full PoW search failed")
+			panic("harness: heavy PoW search failed")
 		}
-		nn.full, nn.hasFull = v, true
-		nn.badFull = firstBad(fullDifficulty)
+		nn.full, nn.heavyW = v, heavyW
+		nn.badFull = firstBad(heavyW * refDiffPerPlasma)
 		nn.searched += tries
 	}
 	return nn
@@ -329,11 +353,11 @@ func (nn *stateNonces) option(p int) (d uint64, nonce uint64) {
 	case pow63Bad:
 		return 1 << 63, nn.bad63
 	case powFull:
-		return fullDifficulty, nn.full
+		return nn.heavyW * refDiffPerPlasma, nn.full
 	case powFullLess:
-		return fullDifficulty - 1, nn.full
+		return nn.heavyW*refDiffPerPlasma - 1, nn.full
 	case powFullBad:
-		return fullDifficulty, nn.badFull
+		return nn.heavyW * refDiffPerPlasma, nn.badFull
 	case powMaxBad:
 		return ^uint64(0), nn.badMax
 	}
@@ -389,7 +413,7 @@ func errReason(err error) string {
 }
 
 // fusedDomain is the boundary domain of FusedPlasma for a block kind in a model state.
-func fusedDomain(base, avail uint64) []uint64 {
+func fusedDomain(base, avail, heavyW uint64, rich bool) []uint64 {
 	set := map[uint64]bool{}
 	add := func(v int64) {
 		if v >= 0 {
@@ -397,8 +421,17 @@ func fusedDomain(base, avail uint64) []uint64 {
 		}
 	}
 	b, a := int64(base), int64(avail)
-	for _, v := range []int64{0, 1, b - 4, b - 3, b - 1, b, b + 1, a - 1, a, a + 1, refBlockCap - 1, refBlockCap, refBlockCap + 1} {
+	for _, v := range []int64{0, b - 4, b - 3, b - 1, b, b + 1, a, a + 1, refBlockCap, refBlockCap + 1} {
 		add(v)
+	}
+	if rich {
+		for _, v := range []int64{1, a - 1, refBlockCap - 1} {
+			add(v)
+		}
+	}
+	if heavyW > 0 {
+		add(b - int64(heavyW))
+		add(b - int64(heavyW) + 1)
 	}
 	out := make([]uint64, 0, len(set))
 	for v := range set {
@@ -420,6 +453,14 @@ type explorer struct {
 	seenM  map[string]bool
 	// leafMomentum: also confirm full-length sequences (one rebuilt node each)
 	leafMomentum bool
+	// richFrom: states with at least this many blocks still to go get the rich candidate domain, deeper ones the basic one
+	richFrom int
+	// extPlusOne: "base+1" blocks may be followed by further blocks, too
+	extPlusOne bool
+	// postMDepth: how many more blocks are explored after a confirming momentum
+	postMDepth int
+	// noInsert: decide candidates only (used by shards that recompute a root they do not own)
+	noInsert bool
 }
 
 type acctReplay struct {
@@ -427,19 +468,19 @@ type acctReplay struct {
 	Cfg  acctCfg `json:"cfg"`
 	Path []step  `json:"path"`
 	Cand *cand   `json:"cand,omitempty"`
-	Full bool    `json:"full,omitempty"`
+	Heavy uint64 `json:"heavy,omitempty"`
 }
 
-func (x *explorer) violate(key, what string, path []step, cd *cand, full bool) {
+func (x *explorer) violate(key, what string, path []step, cd *cand, full uint64) {
 	desc := fmt.Sprintf("account with %d QSR fused (plasma %d); unconfirmed history %s", x.cfg.QSR, refFusedPlasma(big.NewInt(x.cfg.QSR*refUnitCost)), pathString(path))
 	if cd != nil {
 		desc += "; block [" + cd.String() + "]"
 	}
-	x.r.Violate(key, desc+": "+what, acctReplay{Part: "acct", Cfg: x.cfg, Path: append([]step{}, path...), Cand: cd, Full: full})
+	x.r.Violate(key, desc+": "+what, acctReplay{Part: "acct", Cfg: x.cfg, Path: append([]step{}, path...), Cand: cd, Heavy: full})
 }
 
 // judge applies the oracle to one candidate evaluated in model state st. Returns whether the model allows the block.
-func (x *explorer) judge(e *env, st *mstate, path []step, cd cand, b *nom.AccountBlock, nn *stateNonces, accepted bool, full bool) (modelOK bool) {
+func (x *explorer) judge(e *env, st *mstate, path []step, cd cand, b *nom.AccountBlock, nn *stateNonces, accepted bool, full uint64) (modelOK bool) {
 	k := kinds[cd.K]
 	d, nonce := nn.option(cd.P)
 	powOK := refValid(d, refWork(nonce, &nn.dh))
@@ -480,14 +521,14 @@ func (x *explorer) judge(e *env, st *mstate, path []step, cd cand, b *nom.Accoun
 	return
 }
 
-func (x *explorer) candidates(e *env, st *mstate, pset []int) []cand {
+func (x *explorer) candidates(e *env, st *mstate, pset []int, heavyW uint64, rich bool) []cand {
 	var out []cand
 	avail := e.plasma - st.used()
 	for _, ki := range x.kinds {
 		if kinds[ki].Class == "recv" && st.RecvUsed >= len(e.pending) {
 			continue
 		}
-		for _, f := range fusedDomain(kinds[ki].Base, avail) {
+		for _, f := range fusedDomain(kinds[ki].Base, avail, heavyW, rich) {
 			for _, p := range pset {
 				out = append(out, cand{K: ki, F: f, P: p})
 			}
@@ -496,7 +537,23 @@ func (x *explorer) candidates(e *env, st *mstate, pset []int) []cand {
 	return out
 }
 
+// extends tells whether an accepted candidate may be followed by further blocks (the "extension domain"): blocks that pay
+// exactly / one more than their base cost from fused plasma, 4 below it topped up by PoW, or everything that is left.
+func extends(cd cand, avail uint64, plusOne bool) bool {
+	if cd.P != powNone && cd.P != pow4 {
+		return false
+	}
+	return kindRelative(cd, plusOne) || cd.F == avail
+}
+
+// kindRelative: the fused amount is one of the values that are in the extension domain of every state.
+func kindRelative(cd cand, plusOne bool) bool {
+	b := kinds[cd.K].Base
+	return cd.F == b || (plusOne && cd.F == b+1) || cd.F+4 == b
+}
+
 var normalPow = []int{powNone, pow1, pow4, pow3, pow4Bad, pow63Bad, powMaxBad}
+var basicPow = []int{powNone, pow4, pow3, pow4Bad, pow63Bad}
 var fullPow = []int{powFull, powFullLess, powFullBad}
 
 func stateKey(st *mstate, depthLeft int) string {
@@ -505,8 +562,9 @@ func stateKey(st *mstate, depthLeft int) string {
 
 // evalOne evaluates candidate cd in state st on the node (which must hold st's blocks, possibly with one sibling on
 // top), applies the oracle, and when accepted inserts it and checks the counters. Returns the successor state.
-func (x *explorer) evalOne(e *env, st *mstate, path []step, cd cand, nn *stateNonces, full bool) (child *mstate, accepted bool) {
+func (x *explorer) evalOne(e *env, st *mstate, path []step, cd cand, nn *stateNonces, full uint64) (child *mstate, accepted bool) {
 	r := x.r
+	e.clean(st)
 	b := e.build(st, cd, nn)
 	tx, err := e.apply(b)
 	accepted = err == nil
@@ -530,10 +588,6 @@ func (x *explorer) evalOne(e *env, st *mstate, path []step, cd cand, nn *stateNo
 			r.Count("acct_accepted_needing_pow", 1)
 		}
 	}
-	if err := e.insert(tx); err != nil {
-		x.violate("C12:acct:accepted-block-refused-by-pool", fmt.Sprintf("ApplyBlock accepted the block but the pool refused it: %v", err), path, &cd, full)
-		return nil, false
-	}
 	child = st.clone()
 	child.Unconf = append(child.Unconf, cd.F)
 	child.Prev = tx.Block.Identifier()
@@ -541,11 +595,18 @@ func (x *explorer) evalOne(e *env, st *mstate, path []step, cd cand, nn *stateNo
 	if kinds[cd.K].Class == "recv" {
 		child.RecvUsed++
 	}
+	if x.noInsert {
+		return child, true
+	}
+	if err := e.insert(tx); err != nil {
+		x.violate("C12:acct:accepted-block-refused-by-pool", fmt.Sprintf("ApplyBlock accepted the block but the pool refused it: %v", err), path, &cd, full)
+		return nil, false
+	}
 	x.checkCounters(e, child, path, &cd, full, "after the block was accepted")
 	return child, true
 }
 
-func (x *explorer) checkCounters(e *env, st *mstate, path []step, cd *cand, full bool, when string) {
+func (x *explorer) checkCounters(e *env, st *mstate, path []step, cd *cand, full uint64, when string) {
 	committed, uncommitted, avail := e.counters()
 	wantAvail := int64(e.plasma) - int64(st.used())
 	x.r.Count("acct_counter_checks", 1)
@@ -565,11 +626,26 @@ type rep struct {
 // evaluate runs every candidate of the domain in state st through the real acceptance path and the oracle; every
 // accepted one is inserted (replacing the sibling tried before) and the counters are compared with the model. Returns
 // one representative per distinct successor model state, in enumeration order.
-func (x *explorer) evaluate(e *env, st *mstate, path []step, depthLeft int, pset []int, full bool) (reps []rep, nn *stateNonces) {
+func (x *explorer) evaluate(e *env, st *mstate, path []step, depthLeft int, pset []int, full uint64, extOnly bool) (reps []rep, nn *stateNonces) {
 	r := x.r
 	nn = e.nonces(st, full)
 	r.Count("acct_nonce_search_hashes", int64(nn.searched))
-	cands := x.candidates(e, st, pset)
+	rich := x.richFrom <= depthLeft || full > 0
+	if !rich && full == 0 {
+		pset = basicPow
+	}
+	cands := x.candidates(e, st, pset, full, rich)
+	avail := e.plasma - st.used()
+	plusOne := x.extPlusOne
+	if extOnly {
+		var ext []cand
+		for _, cd := range cands {
+			if extends(cd, avail, plusOne) {
+				ext = append(ext, cd)
+			}
+		}
+		cands = ext
+	}
 	repSeen := map[string]bool{}
 	nAcc, nRej := 0, 0
 	for _, cd := range cands {
@@ -580,6 +656,18 @@ func (x *explorer) evaluate(e *env, st *mstate, path []step, depthLeft int, pset
 			continue
 		}
 		nAcc++
+		if !extends(cd, avail, plusOne) {
+			continue
+		}
+		if kindRelative(cd, plusOne) {
+			if cd.F < st.LastRel {
+				r.Count("acct_successors_left_to_the_sorted_order", 1)
+				continue
+			}
+			child.LastRel = cd.F
+		} else {
+			child.LastRel = 0
+		}
 		k := stateKey(child, depthLeft-1)
 		if !repSeen[k] {
 			repSeen[k] = true
@@ -587,9 +675,11 @@ func (x *explorer) evaluate(e *env, st *mstate, path []step, depthLeft int, pset
 		}
 	}
 	r.Count("acct_states_expanded", 1)
+	r.Count(fmt.Sprintf("acct_states_expanded:%s:blocks=%d:m=%d", x.cfg.Name, st.Blocks, st.MUsed), 1)
+	r.Count(fmt.Sprintf("acct_candidates:%s", x.cfg.Name), int64(len(cands)))
 	skey := fmt.Sprintf("%s|%s", x.cfg.Name, stateKey(st, depthLeft))
-	if full {
-		skey += "|fullpow"
+	if full > 0 {
+		skey += fmt.Sprintf("|heavypow%d", full)
 	}
 	r.Add("acct_states", skey)
 	if nAcc > 0 && nRej > 0 {
@@ -609,7 +699,7 @@ func (x *explorer) expand(e *env, st *mstate, path []step, depthLeft int) {
 		x.r.Incomplete = true
 		return
 	}
-	reps, nn := x.evaluate(e, st, path, depthLeft, normalPow, false)
+	reps, nn := x.evaluate(e, st, path, depthLeft, normalPow, 0, false)
 	x.descend(e, st, path, depthLeft, reps, nn, nil)
 }
 
@@ -633,6 +723,7 @@ func (x *explorer) descend(e *env, st *mstate, path []step, depthLeft int, reps 
 		x.seen[gk] = true
 		if depthLeft-1 > 0 {
 			// put the representative back (a sibling may be on top) and go one block deeper
+			e.clean(st)
 			b := e.build(st, cd, nn)
 			tx, err := e.apply(b)
 			if err != nil {
@@ -672,8 +763,8 @@ func (x *explorer) replayPath(path []step, recordAll bool) (*env, *mstate) {
 			st = x.produce(e, st, path[:i+1])
 			continue
 		}
-		nn := e.nonces(st, false)
-		child, ok := x.evalOne(e, st, path[:i], *s.C, nn, false)
+		nn := e.nonces(st, 0)
+		child, ok := x.evalOne(e, st, path[:i], *s.C, nn, 0)
 		if !ok {
 			panic(fmt.Sprintf("harness: history is not reproducible: %s refused at step %d", pathString(path), i))
 		}
@@ -703,17 +794,18 @@ func (x *explorer) produce(e *env, st *mstate, path []step) *mstate {
 	after := st.clone()
 	after.Committed = st.Committed + st.used()
 	after.Unconf = nil
+	after.LastRel = 0
 	after.MUsed++
 	x.r.Count("acct_momentums", 1)
 	x.r.Count("transitions", 1)
 	committed, _, _ := e.counters()
 	if nconf != len(st.Unconf) || confirmed != st.used() {
-		x.violate("C12:acct:momentum-did-not-confirm-the-unconfirmed-blocks", fmt.Sprintf("momentum confirmed %d blocks of the account with fused plasma %d, the pool held %d with %d", nconf, confirmed, len(st.Unconf), st.used()), path, nil, false)
+		x.violate("C12:acct:momentum-did-not-confirm-the-unconfirmed-blocks", fmt.Sprintf("momentum confirmed %d blocks of the account with fused plasma %d, the pool held %d with %d", nconf, confirmed, len(st.Unconf), st.used()), path, nil, 0)
 	}
 	if committed-before != confirmed {
-		x.violate("C12:acct:committed-counter-wrong-after-momentum", fmt.Sprintf("committed counter moved from %d to %d but the momentum confirmed blocks with fused plasma %d", before, committed, confirmed), path, nil, false)
+		x.violate("C12:acct:committed-counter-wrong-after-momentum", fmt.Sprintf("committed counter moved from %d to %d but the momentum confirmed blocks with fused plasma %d", before, committed, confirmed), path, nil, 0)
 	}
-	x.checkCounters(e, after, path, nil, false, "after the confirming momentum")
+	x.checkCounters(e, after, path, nil, 0, "after the confirming momentum")
 	return after
 }
 
@@ -723,6 +815,9 @@ func (x *explorer) momentum(st *mstate, path []step, depthLeft int) {
 	defer e.n.Destroy()
 	// the model state after a momentum does not depend on how the committed amount was reached: expand one
 	// representative per (number of confirmed blocks, remaining depth) and per distinct committed amount class
+	if depthLeft > x.postMDepth {
+		depthLeft = x.postMDepth
+	}
 	if depthLeft <= 0 {
 		return
 	}
